@@ -218,11 +218,18 @@ Fixpoint sequence {A} (l : list (res A)) : res (list A) :=
   | x :: t => a <- x ;; r <- sequence t ;; Ok (a :: r)
   end.
 
-Definition zix_queries (path : option mstr) : res (list bool) :=
-  sequence [zix_path_has_root_path path; zix_path_has_root_name path;
-            zix_path_has_root_directory path; zix_path_has_relative_path path;
-            zix_path_has_parent_path path; zix_path_has_filename path; zix_path_has_stem path;
-            zix_path_has_extension path; zix_path_is_absolute path; zix_path_is_relative path].
+Definition zix_query_calls (path : option mstr) : list (res bool) :=
+  [zix_path_has_root_path path; zix_path_has_root_name path;
+   zix_path_has_root_directory path; zix_path_has_relative_path path;
+   zix_path_has_parent_path path; zix_path_has_filename path; zix_path_has_stem path;
+   zix_path_has_extension path; zix_path_is_absolute path; zix_path_is_relative path].
+
+Definition zix_queries (path : option mstr) : res (list bool) := sequence (zix_query_calls path).
+
+(* the eight decomposition calls, in header order *)
+Definition zix_views (s : mstr) : list (res view) :=
+  [zix_path_root_name s; zix_path_root_directory s; zix_path_root_path s; zix_path_relative_path s;
+   zix_path_parent_path s; zix_path_filename s; zix_path_stem s; zix_path_extension s].
 
 (* the bytes a view denotes *)
 Definition slice (s : mstr) (b e : Z) : mstr := firstn (Z.to_nat (e - b)) (skipn (Z.to_nat b) s).
